@@ -792,7 +792,7 @@ pub fn run_c11cli(ctx: &mut Ctx, from: u64, to: u64) {
             }
         }
         if k % 6 == 0 {
-            // (k % 6 == 0: a tokenized LF corpus trained with normalisation on)
+            // (k % 6 == 0: a tokenized corpus; every other one of these is an LF file trained with normalisation on)
             // a line made of kana and of characters the normaliser maps to others of the same UTF-8 width
             // (no character that grows under normalisation), every token tagged
             let cs: Vec<char> = "｢あ｣､い～―う".chars().collect();
@@ -832,9 +832,10 @@ pub fn run_c11cli(ctx: &mut Ctx, from: u64, to: u64) {
         }
         let cpath = scratch(ctx, "corpus.txt");
         let mpath = scratch(ctx, "trained.zst");
-        // a third of the corpora (and their word lists) come as CRLF files; those runs use --no-norm so that the
+        // half of the corpora (and their word lists) come as CRLF files; those runs use --no-norm so that the
         // words of the trained model can be compared with the word list as given
-        let crlf = k % 3 == 1;
+        // (alternating per block of six cases, so that every corpus class meets both kinds of file)
+        let crlf = (k / 6) % 2 == 1;
         let corpus_file = if crlf { corpus.replace('\n', "\r\n") } else { corpus.clone() };
         std::fs::write(&cpath, &corpus_file).unwrap();
         let _ = std::fs::remove_file(&mpath);
